@@ -39,7 +39,10 @@ ASSUME = ["scipy.linalg.expm on the 4x4 non-dimensional augmented matrix (cross-
           "the roll functions' resampling accuracy is C19's business: fft / lanczos / prefilter outputs "
           "are taken from srs.fftroll / lanroll / preroll called directly",
           "where the order of ic-shift and roll-off is not documented both orders are accepted",
-          "vrs integration step on non-uniform grids is not documented: only bracketed there"]
+          "vrs on non-uniform integration grids (geometric `freq`, or response frequencies between the points of "
+          "`freq`, which are merged into the grid): the step attached to a sample is not documented, so the sum is "
+          "bracketed by the smaller / larger neighbouring step and the mean square must be the trapezoidal area "
+          "under the response PSD curve, the two end samples carrying between zero and one full step extra"]
 def KNOWN_F26(case, kind, detail):
     """srs.linroll (rolloff='linear') with an up-sampling factor >= 3: N*factor - 1 samples instead of
     (N-1)*factor + 1 (fixing it changes numbers pinned by pyyeti's own tests, so it is recorded, not repaired)"""
@@ -892,12 +895,23 @@ def oracle_vrs(case, R):
         n = len(freq)
     Q = float(case["Q"])
     linear = bool(case["linear"])
+    offgrid = False
     if case["fn_idx"] is None:
         Fn_arg, Fn = None, freq
     else:
         idx = sorted(set(int(i) % n for i in case["fn_idx"]))
         Fn = freq[idx]
+        # response frequencies between the points of `freq` are merged into the integration grid (documented:
+        # `freq` defines the integration step; Fn defines where the response is computed)
+        off = case.get("fn_off") or []
+        if off and not edge:
+            extra = [freq[i % (n - 1)] + fr * (freq[i % (n - 1) + 1] - freq[i % (n - 1)]) for i, fr in off]
+            Fn = np.unique(np.r_[Fn, extra])
+            offgrid = not np.all(np.isin(Fn, freq))
         Fn_arg = Fn.copy()
+        if offgrid:
+            freq = np.unique(np.r_[freq, Fn])
+            n = len(freq)
     getmiles, getresp = bool(case["getmiles"]), bool(case["getresp"])
     if edge:
         getresp = True
@@ -907,7 +921,8 @@ def oracle_vrs(case, R):
         # psd.interp(linear=False) returns log(PSD) instead of 0 there: input class isolated in part 'vrs_edge'
         R.label("skipped:grid_point_1ulp_outside_spec")
         return
-    R.label(f"grid={case['grid']}", f"linear={linear}", f"form={form}", "Fn=None" if Fn_arg is None else "Fn_subset",
+    R.label(f"grid={case['grid']}", f"linear={linear}", f"form={form}",
+            "Fn=None" if Fn_arg is None else ("Fn_offgrid" if offgrid else "Fn_subset"),
             f"getmiles={getmiles}", f"getresp={getresp}")
     R.nontrivial(n >= 3 and nb >= 2)
     if case.get("badQ"):
@@ -944,7 +959,7 @@ def oracle_vrs(case, R):
     gain = np.array([sx.vrs_gain(freq, fn, Q) for fn in Fn])                                 # (nFn, n)
     t = gain[:, None, :] * psdfull.T[None, :, :]                                            # (nFn, ncol, n)
     gaps = np.diff(freq)
-    if case["grid"] == "uniform":
+    if case["grid"] == "uniform" and not offgrid:
         df = np.full(n, float(case["dg"]))
         zz = np.sqrt(np.sum(t * df, axis=2))
         sc = np.where(zz > 0, zz, 1.0)
@@ -962,6 +977,17 @@ def oracle_vrs(case, R):
         zhi = np.sqrt(np.sum(t * hi, axis=2)) * (1 + 1e-9)
         R.check(np.all((z >= zlo) & (z <= zhi)), "vrs_sum_outside_step_bracket",
                 f"z={z.ravel()[:3]} lo={zlo.ravel()[:3]} hi={zhi.ravel()[:3]}")
+        # the mean-square response is the area under the response PSD curve (the curve getresp returns on
+        # resp['f']): trapezoidal area of the samples, the two end points carrying between nothing and a full
+        # step beyond it.  A step rule that is not centred on the sample (forward / backward differences) leaves
+        # this band as soon as the curve varies over unequal neighbouring steps.
+        area = np.sum((t[:, :, :-1] + t[:, :, 1:]) * gaps / 2, axis=2)
+        ends = t[:, :, 0] * gaps[0] + t[:, :, -1] * gaps[-1]
+        z2 = z ** 2
+        slack = 1e-9 * (area + ends)
+        R.check(np.all((z2 >= area - slack) & (z2 <= area + ends + slack)), "vrs_not_area_under_response_psd",
+                f"z^2={z2.ravel()[:3]} trapezoidal area={area.ravel()[:3]} end cells={ends.ravel()[:3]}")
+        _m(R, "vrs_area_excess/end_cells", float(np.max((z2 - area) / np.where(ends > 0, ends, 1.0))))
     if nret >= 2:
         mi = np.asarray(out[1])
         if R.check(mi.shape == shape, "miles_shape", f"{mi.shape} vs {shape}"):
@@ -993,7 +1019,9 @@ def vrs_cases(draw, edge=False):
             "g0": draw(st.sampled_from([4.0, 10.0, 25.0, 20.0])), "dg": draw(st.sampled_from([0.5, 2.0, 5.0, 1.25])),
             "gr": draw(st.sampled_from([1.05, 1.1, 2.0 ** 0.25])), "Q": draw(st.sampled_from([0.6, 1.0, 10.0, 25.0, 50.0, 7.3])),
             "linear": False if edge else draw(st.booleans()), "fn_idx": fn_idx, "getmiles": draw(st.booleans()),
-            "getresp": draw(st.booleans()), "badQ": (not edge) and draw(st.sampled_from([False] * 24 + [True]))}
+            "getresp": draw(st.booleans()), "badQ": (not edge) and draw(st.sampled_from([False] * 24 + [True])),
+            "fn_off": draw(st.one_of(st.just([]), st.just([]), st.lists(
+                st.tuples(st.integers(0, 58), st.sampled_from([0.5, 0.25, 0.9, 0.001])), min_size=1, max_size=3)))}
 
 
 REQUIRED_CLASSES = {
